@@ -222,7 +222,8 @@ Section MatchesSpec.
     p_query_single query (einfo_of i (is_some xdres)) pxd p
     = q_of_cur (spec_cursor query (aflag i) (p_xpath (v_pub i)) xdres p).
   Proof.
-    intro H. unfold p_query_single, spec_cursor. cbn [einfo_of e_needed]. unfold needed, aflag.
+    intro H. unfold p_query_single, spec_cursor. cbn [einfo_of e_needed].
+    rewrite (needed_eq i (is_some xdres)). unfold aflag.
     destruct (fqdn_is_final (v_fqdn i)); [reflexivity|].
     destruct (parent_is_array i); simpl; [rewrite andb_false_r; reflexivity|]. rewrite andb_true_r.
     destruct (is_some (p_xpath (v_pub i)) || is_some xdres)%bool eqn:X; simpl; [|reflexivity].
